@@ -354,6 +354,30 @@ def roundtrip(st, segs):
                 st.fail("pop-parsed|%s|%s" % (sig, sep), case,
                         repr(segs[:-1]), repr(s_ast))
                 continue
+            # a copy of a path whose segments were read already, popped (as
+            # parent() does to climb): the copy loses its last segment, the
+            # source keeps every one of them in both forms and in its text
+            try:
+                src = YAMLPath(text)
+                n_esc, n_une = len(src.escaped), len(src.unescaped)
+                dup = YAMLPath(src)
+                dup.pop()
+                d_ast = to_ast(dup.escaped)
+                after = (to_ast(src.escaped), len(src.escaped),
+                         len(src.unescaped), parse(str(src)))
+                dup2 = YAMLPath(src)
+                dup2.append("zz")
+                after2 = (to_ast(src.escaped), len(src.unescaped),
+                          to_ast(dup2.escaped))
+            except Exception as ex:       # pylint: disable=broad-except
+                d_ast = "%s: %s" % (type(ex).__name__, ex)
+                after = after2 = None
+            if d_ast != segs[:-1] or after != (segs, n_esc, n_une, segs) or \
+                    after2 != (segs, n_une, segs + (("key", "zz"),)):
+                st.fail("copy-pop-source|%s|%s" % (sig, sep), case,
+                        "copy %r, source %r" % (segs[:-1], segs),
+                        "copy %r, source %r / %r" % (d_ast, after, after2))
+                continue
             # ... and switching on an object that was never stringified
             fresh = YAMLPath(text)
             fresh.separator = PathSeparators.DOT
